@@ -52,6 +52,7 @@ int main(int argc, char **argv)
     if(c == "wopn") return comp_wopn();
     if(c == "bankmap") return comp_bankmap();
     if(c == "pitch") return comp_pitch();
+    if(c == "synth") return comp_synth();
     fprintf(stderr, "unknown component %s\n", c.c_str());
     return 2;
 }
